@@ -17,7 +17,8 @@ def rand_unitary(rng):
         out += [z.real, z.imag]
     return out
 
-SPECIAL_ANGLES = [0.0, math.pi, -math.pi, 2 * math.pi, math.pi / 2, 1e-300, 1e300, -0.0, 4.0]
+SPECIAL_ANGLES = [0.0, math.pi, -math.pi, 2 * math.pi, -2 * math.pi, 4 * math.pi, -4 * math.pi, 3 * math.pi, 6 * math.pi, 8 * math.pi,
+                  math.pi / 2, -math.pi / 2, math.pi / 4, 3 * math.pi / 2, 1e-300, 1e-9, 1e300, -0.0, 4.0, 1.0, 720.0]
 
 def rand_params(rng, kind, special=False):
     if kind == "U2":
@@ -121,3 +122,17 @@ def describe(case):
     return {"kind": case["kind"], "n": case["n"], "targets": case["ts"], "controls": case["cs"],
             "path": "par" if case["n"] >= case["thr"] else "seq",
             "params": [bits2float(p) for p in case["params"]]}
+
+
+def run_gate_cases(ctx, cases, nproc=8):
+    """run gate cases through the crate, then model+Spec inside Coq; returns (results, verdict codes)"""
+    results = run_harness(cases, nproc=nproc)
+    terms, idx = [], []
+    for i, (c, r) in enumerate(zip(cases, results)):
+        if r["r"] in ("ok", "err", "panic"):
+            terms.append(coq_gate_term(c, r)); idx.append(i)
+    outs = coq_eval(ctx, GATE_IMPORTS, terms)
+    codes = [None] * len(cases)
+    for i, o in zip(idx, outs):
+        codes[i] = parseN(o)
+    return results, codes
